@@ -239,3 +239,15 @@ func mustResource(js string) fhir.Resource {
 }
 
 var _ = dtpb.Boolean{}
+
+func mustDec(s string) decimal.Decimal {
+	d, err := decimal.NewFromString(s)
+	if err != nil {
+		panic(err)
+	}
+	return d
+}
+
+func mustElementHumanName(family string) *dtpb.HumanName {
+	return &dtpb.HumanName{Family: fhir.String(family)}
+}
